@@ -156,52 +156,54 @@ def h_chain(params, n, n2, op, rng):
   spec, dnas = space(params['spec'])
   d = _pick(dnas, n)
   name = _pick(CHAIN, op)
+  before_numbers = d.to_numbers()
+  e = _pick(dnas, n2) if name.startswith('crossover') else None
   if params.get('ops') and name not in params['ops']:
     raise Assume()
   try:
-    if name == 'next':
-      r = d.next_dna()
-      if r is None:
-        raise Assume()
-    elif name == 'random':
-      r = pg.random_dna(spec, rng)
-    elif name == 'parse':
-      r = pg.DNA.parse(d.to_json(type_info=False), spec)
-    elif name == 'clone':
-      r = d.clone(deep=True)
-    elif name == 'json':
-      r = pg.from_json(pg.to_json(d))
-      r.use_spec(spec)
-    elif name == 'uniform':
-      m = mutators.Uniform(seed=1)
-      m._random = rng        # pylint: disable=protected-access
-      r = m.mutate(d)
-    elif name == 'swap':
-      m = mutators.Swap(seed=1)
-      m._random = rng        # pylint: disable=protected-access
-      r = m.mutate(d)
-    elif name == 'uniform_swap':
-      m1, m2 = mutators.Uniform(seed=1), mutators.Swap(seed=1)
-      m1._random = rng       # pylint: disable=protected-access
-      m2._random = rng       # pylint: disable=protected-access
-      r = m2.mutate(m1.mutate(d))
-    else:
-      e = _pick(dnas, n2)
-      rc = dict(crossover_uniform=recombinators.Uniform, crossover_kpoint=lambda seed: recombinators.KPoint(1, seed=seed))[name](seed=1)
-      rc._random = rng       # pylint: disable=protected-access
-      out = rc.recombine([d, e], pg.geno.AttributeDict(), 0)
-      if not out:
-        raise Assume()
-      r = out[0]
+   with untraced():       # the operators run natively; every RNG outcome stays a solver decision (SymRandom)
+     if name == 'next':
+       r = d.next_dna()
+       if r is None:
+         raise Assume()
+     elif name == 'random':
+       r = pg.random_dna(spec, rng)
+     elif name == 'parse':
+       r = pg.DNA.parse(d.to_json(type_info=False), spec)
+     elif name == 'clone':
+       r = d.clone(deep=True)
+     elif name == 'json':
+       r = pg.from_json(pg.to_json(d))
+       r.use_spec(spec)
+     elif name == 'uniform':
+       m = mutators.Uniform(seed=1)
+       m._random = rng        # pylint: disable=protected-access
+       r = m.mutate(d)
+     elif name == 'swap':
+       m = mutators.Swap(seed=1)
+       m._random = rng        # pylint: disable=protected-access
+       r = m.mutate(d)
+     elif name == 'uniform_swap':
+       m1, m2 = mutators.Uniform(seed=1), mutators.Swap(seed=1)
+       m1._random = rng       # pylint: disable=protected-access
+       m2._random = rng       # pylint: disable=protected-access
+       r = m2.mutate(m1.mutate(d))
+     else:
+       rc = dict(crossover_uniform=recombinators.Uniform, crossover_kpoint=lambda seed: recombinators.KPoint(1, seed=seed))[name](seed=1)
+       rc._random = rng       # pylint: disable=protected-access
+       out = rc.recombine([d, e], pg.geno.AttributeDict(), 0)
+       if not out:
+         raise Assume()
+       r = out[0]
   except (RuntimeError, NotImplementedError):
     raise Assume()
   reach('chain.aligned')
-  before = d.to_numbers()
-  viol = aligned(r, spec, f'{name}')
-  if viol is not None:
-    return viol
-  if d.to_numbers() != before:
-    return Violation(f'{name}:input_modified', '')
+  with untraced():
+    viol = aligned(r, spec, f'{name}')
+    if viol is not None:
+      return viol
+    if d.to_numbers() != before_numbers:
+      return Violation(f'{name}:input_modified', '')
   return None
 
 
